@@ -67,7 +67,7 @@ OWN_PRE = ["EVAL (defun fa (a &optional b &rest c) (car b))", "EVAL (defun fb (a
 
 def generate(tier, seed):
     rng = C.rng_for(seed, "C03")
-    nprog = 350 if tier == "quick" else 6000
+    nprog = 800 if tier == "quick" else 25000
     cases = [gen_prog_case(rng, rng.choice([2, 3, 3, 4])) for _ in range(nprog)]
     # phase 1: count ticks with the model
     probe = []
